@@ -114,7 +114,7 @@ package rjson
 //@   input data
 //@   scratch stack
 //@   sim value limit=10000 fast=1 pos@_again=p+1 key@_again=cs
-//@   ensures @sim [C11] accepts(data) ==> err == nil && p == endof(data)
+//@   ensures @sim [C11,C08] accepts(data) ==> err == nil && p == endof(data)
 //@   cuts st_case_*, _again
 //@   candidates err == nil; 0 <= p; p < pe; 0 <= top; top <= len(stack); top >= 1; top == 0; top <= 10000
 //@   candidates top == 0 ==> retmain(cs); top >= 1 ==> retsub(cs)
@@ -256,7 +256,7 @@ package rjson
 //@   input data
 //@   scratch buffer
 //@   sim value limit=10000 init=none
-//@   ensures @sim [C11] accepts(data) ==> err == nil && p == endof(data)
+//@   ensures @sim [C11,C08] accepts(data) ==> err == nil && p == endof(data)
 //@   assigns buffer.stackBuf
 //@   ensures err == nil ==> 0 <= p && p <= len(data)
 //
@@ -319,6 +319,11 @@ package rjson
 //
 // ---------------------------------------------------------------- simple_readers.go
 //@ func ReadUint64(data) (val, p, err)
+//@   sim value limit=10000 init=none
+//@   requires @sim Rdepth(data, 0) == 0 && (qis(Rq(data, 0), "Before@top") || (qis(Rq(data, 0), "InValue.NumMinus@top") && len(data) > 0 && !ws(data[0])))
+//@   ensures @sim [C08] err == nil ==> accepts(data) && p == endof(data)
+//@   loop 1 invariant @sim Rdepth(data, p) == 0 && (p > startP ==> qis(Rq(data, p), "InValue.NumInt@top")) && (p == startP ==> qis(Rq(data, p), "Before@top", "InValue.NumMinus@top"))
+//@   loop 2 invariant @sim Rdepth(data, p) == 0 && qis(Rq(data, p), "InValue.NumInt@top")
 //@   ensures [C19,C20] !(wsrun(data, 0) < len(data) && digit(data[wsrun(data, 0)])) ==> ghost_alloc == old(ghost_alloc)
 //@   ensures [C19,C20] err == nil ==> ghost_alloc == old(ghost_alloc)
 //@   ensures [C20] ghost_alloc <= old(ghost_alloc) + 256
@@ -342,6 +347,8 @@ package rjson
 //@   loop 2 invariant ghost_alloc == 0
 //
 //@ func ReadUint32(data) (val, p, err)
+//@   sim value limit=10000
+//@   ensures @sim [C08] err == nil ==> accepts(data) && p == endof(data)
 //@   ensures [C19,C20] !(wsrun(data, 0) < len(data) && digit(data[wsrun(data, 0)])) ==> ghost_alloc == old(ghost_alloc)
 //@   ensures [C19,C20] err == nil ==> ghost_alloc == old(ghost_alloc)
 //@   ensures [C20] ghost_alloc <= old(ghost_alloc) + 256
@@ -354,6 +361,8 @@ package rjson
 //@   defines err == nil ==> val == rval(ReadUint32, data) && p == rp(ReadUint32, data)
 //
 //@ func ReadInt64(data) (val, p, err)
+//@   sim value limit=10000
+//@   ensures @sim [C08] err == nil ==> accepts(data) && p == endof(data)
 //@   ensures [C19,C20] !(wsrun(data, 0) < len(data) && (digit(data[wsrun(data, 0)]) || data[wsrun(data, 0)] == '-')) ==> ghost_alloc == old(ghost_alloc)
 //@   ensures [C19,C20] err == nil ==> ghost_alloc == old(ghost_alloc)
 //@   ensures [C20] ghost_alloc <= old(ghost_alloc) + 256
@@ -366,6 +375,8 @@ package rjson
 //@   defines err == nil ==> val == rval(ReadInt64, data) && p == rp(ReadInt64, data)
 //
 //@ func ReadInt32(data) (val, p, err)
+//@   sim value limit=10000
+//@   ensures @sim [C08] err == nil ==> accepts(data) && p == endof(data)
 //@   ensures [C19,C20] !(wsrun(data, 0) < len(data) && (digit(data[wsrun(data, 0)]) || data[wsrun(data, 0)] == '-')) ==> ghost_alloc == old(ghost_alloc)
 //@   ensures [C19,C20] err == nil ==> ghost_alloc == old(ghost_alloc)
 //@   ensures [C20] ghost_alloc <= old(ghost_alloc) + 256
@@ -378,6 +389,8 @@ package rjson
 //@   defines err == nil ==> val == rval(ReadInt32, data) && p == rp(ReadInt32, data)
 //
 //@ func ReadInt(data) (val, p, err)
+//@   sim value limit=10000
+//@   ensures @sim [C08] err == nil ==> accepts(data) && p == endof(data)
 //@   ensures [C19,C20] !(wsrun(data, 0) < len(data) && (digit(data[wsrun(data, 0)]) || data[wsrun(data, 0)] == '-')) ==> ghost_alloc == old(ghost_alloc)
 //@   ensures [C19,C20] err == nil ==> ghost_alloc == old(ghost_alloc)
 //@   ensures [C20] ghost_alloc <= old(ghost_alloc) + 256
@@ -390,6 +403,8 @@ package rjson
 //@   defines err == nil ==> val == rval(ReadInt, data) && p == rp(ReadInt, data)
 //
 //@ func ReadUint(data) (val, p, err)
+//@   sim value limit=10000
+//@   ensures @sim [C08] err == nil ==> accepts(data) && p == endof(data)
 //@   ensures [C19,C20] !(wsrun(data, 0) < len(data) && digit(data[wsrun(data, 0)])) ==> ghost_alloc == old(ghost_alloc)
 //@   ensures [C19,C20] err == nil ==> ghost_alloc == old(ghost_alloc)
 //@   ensures [C20] ghost_alloc <= old(ghost_alloc) + 256
@@ -415,6 +430,8 @@ package rjson
 //@   defines err == nil ==> val == rval(ReadFloat64, data) && p == rp(ReadFloat64, data)
 //
 //@ func ReadBool(data) (val, p, err)
+//@   sim value limit=10000
+//@   ensures @sim [C08] err == nil ==> accepts(data) && p == endof(data)
 //@   ensures [C19,C20] ghost_alloc == old(ghost_alloc)
 //@   input data
 //@   ensures err == nil ==> 0 <= p && p <= len(data)
@@ -425,6 +442,8 @@ package rjson
 //@   defines err == nil ==> val == rval(ReadBool, data) && p == rp(ReadBool, data)
 //
 //@ func ReadNull(data) (p, err)
+//@   sim value limit=10000
+//@   ensures @sim [C08] err == nil ==> accepts(data) && p == endof(data)
 //@   ensures [C19,C20] ghost_alloc == old(ghost_alloc)
 //@   input data
 //@   ensures err == nil ==> 0 <= p && p <= len(data)
